@@ -667,6 +667,79 @@ def replay_e4(prop, path):
     return 0
 
 
+# ----------------------------------------------------------------------------------------- E6 sort engine (C14)
+def check_c14(tier):
+    t0 = time.time()
+    build()
+    run = os.path.join(WORK, "E6-" + tier)
+    shutil.rmtree(run, ignore_errors=True)
+    shutil.copytree(os.path.join(ROOT, "spec", "sort"), run)
+    tool_errors = []
+    maxsize = 3 if tier == "quick" else 4
+    def cfg(mode):
+        name = "sort_%s.cfg" % mode
+        open(os.path.join(run, name), "w").write("SPECIFICATION Spec\nCHECK_DEADLOCK FALSE\nCONSTANTS\n  Mode = \"%s\"\n  MaxSize = %d\n" % (mode, maxsize))
+        return name
+    # (1) design level: is the transcribed comparison a total preorder over the name universe?
+    o = run_tlc(run, "SortOrder.tla", cfg("order"), 1, 600)
+    cycles = [decode_tagged(l)[1][0] for l in o["tagged"] if l.startswith('<<"ORDER"')]
+    if o["rc"] != 0:
+        tool_errors.append("SortOrder order mode rc=%s %s" % (o["rc"], o["errors"][:2]))
+    # (2) cases, (3) execution on the real library, (4) judgement by TLC
+    inp = os.path.join(run, "in.ndjson")
+    g = tlc_lines(run, "SortOrder.tla", cfg("gen"), "I", inp, workers=4)
+    if g["rc"] != 0 or g["n"] == 0:
+        tool_errors.append("SortOrder gen: rc=%s n=%s %s" % (g["rc"], g["n"], g["errors"][:2]))
+    res = os.path.join(run, "res.ndjson")
+    tr = os.path.join(run, "trace.ndjson")
+    sh([VH, "sortcases", "--in", inp, "--out", res, "--trace", tr], timeout=3600)
+    j = run_tlc(run, "SortOrder.tla", cfg("judge"), 1, 3600, env={"RESULTS": res}, tag="_judge")
+    if j["rc"] != 0:
+        tool_errors.append("SortOrder judge rc=%s %s" % (j["rc"], j["errors"][:2]))
+    verdicts = [json.loads(decode_tagged(l)[1][0]) for l in j["tagged"] if l.startswith('<<"V"')]
+    # the same sorts as E1-style traces: tree, index, reference and file predicates around every sort()
+    spec = prep_spec(run)
+    v1 = validate_trace(spec, tr, "sort/trace")
+    tool_errors += v1["tool_errors"]
+    kf = known_findings().get("findings", [])
+    viol = 0
+    for v in verdicts:
+        viol += 1
+        if viol <= 20:
+            d = os.path.join(WORK, "replays")
+            os.makedirs(d, exist_ok=True)
+            path = os.path.join(d, "C14-%d.json" % viol)
+            json.dump({"property": "C14", "engine": "E6", "predicate": v["pred"], "fam": v["fam"], "group": v["group"], "before": v["before"]}, open(path, "w"))
+            print("VIOLATION property=C14 replay=%s" % path)
+            log("   predicate %s fails: %s siblings %s sorted to %s (second sort %s)" % (v["pred"], v["fam"], v["before"], v["after"], v["after2"]))
+    for x in v1["verdicts"]:
+        if x["kind"] in ("state", "action") and x["op"] == "Sort" and not any(f["id"] in x.get("kf", []) for f in kf):
+            viol += 1
+            print("VIOLATION property=C14 replay=%s" % tr)
+            log("   predicate %s (%s) turns false at a sort() step" % (x["pred"], x["prop"]))
+    ncases = sum(1 for _ in open(res)) if os.path.exists(res) else 0
+    samples = []
+    if os.path.exists(res):
+        with open(res) as f:
+            for i, l in enumerate(f):
+                if i in (0, 40, 200):
+                    r = json.loads(l)
+                    samples.append({"fam": r["fam"], "before": r["before"], "after": r["after"]})
+    ev = {"property_id": "C14", "tier": tier, "seed": seed(), "level": "model_checking",
+          "coverage": {"states": max(1, g["distinct"] + o["distinct"]), "transitions": max(1, g["generated"]), "traces_validated_against_impl": ncases,
+                       "samples": samples or ["none"], "comparison_cycles_found_on_the_model": cycles, "sort_steps_judged_with_core_predicates": v1["steps"],
+                       "max_siblings": maxsize, "exhaustive": True,
+                       "explanation": "TLC checks the transcribed name comparison for totality over the name universe, enumerates every subset (size <= max) of named / BSW-keyed / mixed-kind siblings in every permutation; the harness builds and sorts each on the real library; TLC judges SortPermutesOnly, SortIdempotent, SortNeverFails, OrderIndependent and the core tree/index predicates around every sort()"},
+          "assumptions": ["key extraction and subtree digests in harness/src/sortcases.rs", "TLC"],
+          "wall_s": round(time.time() - t0, 2), "violations": viol}
+    os.makedirs(EVID, exist_ok=True)
+    json.dump(ev, open(os.path.join(EVID, "C14.json"), "w"), indent=1)
+    if tool_errors:
+        log("TOOL ERRORS: " + "; ".join(tool_errors[:5]))
+        return 1 if viol else 2
+    return 1 if viol else 0
+
+
 # ----------------------------------------------------------------------------------------- E7 regex engine (C19)
 def check_c19(tier):
     import regex2tla
@@ -813,6 +886,8 @@ def main(argv):
             return check_c19(tier)
         if prop in ("C01", "C02", "C08"):
             return check_e4(prop, tier)
+        if prop == "C14":
+            return check_c14(tier)
         log("unknown property / not claimed: " + prop)
         return 2
     except ToolError as e:
